@@ -113,7 +113,8 @@ fn blackman(m: usize) -> Window {
     let mut b = Vec::with_capacity(m);
     for n in 0..m {
         let n = n as Float;
-        let m = m as Float;
+        // Symmetric window: the last sample is at angle 2*PI.
+        let m = (m - 1) as Float;
 
         // Parameters.
         //
@@ -151,7 +152,8 @@ fn blackman_harris(m: usize) -> Window {
     let mut b = Vec::with_capacity(m);
     for n in 0..m {
         let n = n as Float;
-        let m = m as Float;
+        // Symmetric window: the last sample is at angle 2*PI.
+        let m = (m - 1) as Float;
 
         // Formula.
         let t1 = 2.0 * PI * n / m;
